@@ -562,7 +562,7 @@ impl Engine for PoolStress {
         "generator: header (2..5 threads, at most 1..2 guards held per thread, 150..600 rounds, bump direction) + up to 8 records used as every thread's action bytes (getter get / try_get / get_with_size / try_get_with_size, block length, when to drop); the threads run freely after a barrier, so the interleaving is the operating system's and a case is not replayable bit for bit. oracle (sound for every schedule): arenas ever created <= threads x guards held per thread; no arena identity behind two live guards (owner set maintained after get / before drop); every thread's patterned blocks intact while it holds the guard; ledger clean after the pool is dropped. non-trivial: at least two arenas were created; distinct by hash of the case bytes".into()
     }
     fn required_classes(&self) -> Vec<(&'static str, f64)> {
-        vec![("several_arenas", 0.5)]
+        vec![("several_arenas", 0.2)]
     }
     fn assumptions(&self) -> Vec<String> {
         vec!["the schedule is the operating system's: a failure is real for the schedule that occurred but a replay may not reproduce it".into()]
